@@ -351,6 +351,7 @@ func childMain(args []string) {
 		}
 		sharedStress(enc, *g)
 		sharedFrozenStress(enc, *g)
+		builtinContentionStress(enc, *g)
 		// G goroutines execute different programs at the same time, several rounds;
 		// each result is compared with the sequential one
 		var mu sync.Mutex
@@ -544,6 +545,83 @@ func sharedFrozenStress(enc *json.Encoder, g int) {
 			enc.Encode(map[string]any{"kind": "diverge", "where": "shared-frozen-values", "i": -1, "a": "error: (sequential run) see b", "b": "error: " + bad,
 				"program": "frozen list/dict/set shared by goroutines: half of them iterate, the others attempt mutations; trial " + fmt.Sprint(trial)})
 			return
+		}
+	}
+}
+
+// builtinContentionStress: many goroutines call the SAME library built-ins
+// (every math.* member, json, time parsing, string methods, hash, sorted ...)
+// at the same time, each with its own operands; every goroutine must obtain
+// what a single-threaded run of its program obtains.
+func builtinContentionStress(enc *json.Encoder, g int) {
+	prog := func(k int) string {
+		return fmt.Sprintf(`
+def work(k):
+    out = []
+    unary = [getattr(math, n) for n in dir(math) if n not in ("pi", "e", "pow", "mod", "atan2", "copysign", "hypot", "remainder", "log")]
+    binary = [math.pow, math.mod, math.atan2, math.copysign, math.hypot, math.remainder]
+    for i in range(1, 120):
+        x = (i * 37 + k * 1009) %% 997 / 997.0
+        for f in unary:
+            out.append(f(x + (0 if f != math.acosh else 1)) if f not in (math.acosh,) else f(x + 1))
+        for f in binary:
+            out.append(f(x + 1, k + 2.5))
+        out.append(math.log(x + 1, k + 2))
+        out.append(json.decode(json.encode({"key_%%d" %% k: [i, x]})))
+        out.append(time.parse_duration("%%dms" %% (i * (k + 1))))
+        out.append(("%%d-%%s" %% (i, k)).upper().split("-"))
+        out.append(hash("string_to_hash_%%d_%%d" %% (i, k)))
+        out.append(sorted([k, i, -i], key = lambda v: v * (k + 1)))
+        out.append(int("%%d" %% (i * k)) + len(str(x)))
+    return out
+result = work(%d)
+`, k)
+	}
+	run := func(src string) string {
+		t := &starlark.Thread{Name: "contend"}
+		t.SetMaxExecutionSteps(20000000)
+		gl, err := starlark.ExecFileOptions(fileOptions(1|8|4), t, "contend.star", src, predeclared)
+		if err != nil {
+			return "error: " + err.Error()
+		}
+		s := gl["result"].String()
+		if os.Getenv("C03_DEBUG") != "" {
+			fmt.Fprintln(os.Stderr, "contend ok", len(s))
+		}
+		return s
+	}
+	if g < 8 {
+		g = 8
+	}
+	want := make([]string, g)
+	for k := range want {
+		want[k] = run(prog(k))
+	}
+	deadline := time.Now().Add(5 * time.Second)
+	for trial := 0; trial < 12 && time.Now().Before(deadline); trial++ {
+		got := make([]string, g)
+		var wg sync.WaitGroup
+		for k := 0; k < g; k++ {
+			wg.Add(1)
+			go func(k int) {
+				defer wg.Done()
+				got[k] = run(prog(k))
+			}(k)
+		}
+		wg.Wait()
+		for k := range got {
+			if got[k] != want[k] {
+				a, b := want[k], got[k]
+				i := 0
+				for i < len(a) && i < len(b) && a[i] == b[i] {
+					i++
+				}
+				lo := max(0, i-60)
+				enc.Encode(map[string]any{"kind": "diverge", "where": "builtins-called-concurrently", "i": -1,
+					"a": "global result = ..." + a[lo:min(len(a), i+80)], "b": "global result = ..." + b[lo:min(len(b), i+80)],
+					"program": prog(k)})
+				return
+			}
 		}
 	}
 }
